@@ -155,12 +155,93 @@ def _job_selfcheck3(job):
     return cnt
 
 
+# ---- part B: graphs generated from languages and models, every asset insertion order
+
+def _partb_langs():
+    from .. import families
+    from ..refgraph import gops_lang, gops2_lang
+    return {'GOPS': (gops_lang(), ['Nn']), 'GOPS2': (gops2_lang(), ['Pp', 'Qq']),
+            'OPS': (families.ops_lang(), ['Host', 'Data'])}
+
+
+_PB = {}
+
+
+def _partb_models(name, tier):
+    from .. import modelgen
+    from ..refs import sem
+    if name not in _PB:
+        sp, types = _partb_langs()[name]
+        L = sem.Lang(sp)
+        n, l, two = (3, 2, name != 'OPS') if tier == 'quick' else (3, 3, True)
+        _PB[name] = list(modelgen.enum_models(L, sp, types, n, l, two))
+    return _PB[name]
+
+
+@common.job
+def _job_generated(job):
+    name, tier, lo, hi = job
+    from .. import langs
+    from ..refs import inherit
+    from maltoolbox.attackgraph import AttackGraph
+    from maltoolbox.attackgraph.analyzers.apriori import calculate_viability_and_necessity
+    from maltoolbox.model import Model
+    sp, _types = _partb_langs()[name]
+    fx = langs.fixture(sp)
+    defs = {t['name']: [n for n, r in inherit.resolve(sp, t['name']).items() if r['decl']['type'] == 'defense'] for t in sp['assets']}
+    stats, viols = {}, []
+    for pm in _partb_models(name, tier)[lo:hi]:
+        for variant in ('default', 'all_off', 'all_on'):
+            first = None
+            for order in itertools.permutations(range(len(pm.assets))):
+                m = Model('m', fx.factory)
+                objs = {}
+                for i in order:
+                    nm, t = pm.assets[i]
+                    kw = {} if variant == 'default' else {d: (0.0 if variant == 'all_off' else 1.0) for d in defs[t]}
+                    objs[nm] = getattr(fx.ns, t)(name=nm, **kw)
+                    m.add_asset(objs[nm])
+                for cls, lf, Ln, rf, Rn in pm.links:
+                    m.add_association(getattr(fx.ns, cls)(**{lf: [objs[x] for x in Ln], rf: [objs[x] for x in Rn]}))
+                g = AttackGraph(fx.lang_graph, m)
+                calculate_viability_and_necessity(g)
+                stats['generated_analyses'] = stats.get('generated_analyses', 0) + 1
+                labels = {n.full_name: (n.is_viable, n.is_necessary) for n in g.nodes}
+                case = {'language': name, 'model': pm.describe(), 'defenses': variant, 'asset_order': list(order)}
+                if first is None:
+                    first = labels
+                    idx = {id(n): k for k, n in enumerate(g.nodes)}
+                    kinds = [(n.type, n.ttc.get('name') if isinstance(n.ttc, dict) else None,
+                              (float(n.defense_status) if n.type == 'defense' else n.existence_status)) for n in g.nodes]
+                    parents = [[idx[id(p)] for p in n.parents] for n in g.nodes]
+                    want = gfp.gfp(kinds, parents)
+                    got = ([n.is_viable for n in g.nodes], [n.is_necessary for n in g.nodes])
+                    if (list(got[0]), list(got[1])) != (want[0], want[1]):
+                        bad = next(n.full_name for k, n in enumerate(g.nodes) if (got[0][k], got[1][k]) != (want[0][k], want[1][k]))
+                        viols.append(common.Violation('generated_graph:not_greatest_fixed_point',
+                                                      f'labels of the generated graph differ from the greatest fixed point (first: {bad})',
+                                                      case=case).to_json())
+                        break
+                    if any(not v for v in want[0]) or any(not v for v in want[1]):
+                        stats['nontrivial'] = stats.get('nontrivial', 0) + 1
+                elif labels != first:
+                    bad = sorted(k for k in labels if labels[k] != first.get(k))[:3]
+                    viols.append(common.Violation('generated_graph:depends_on_asset_order',
+                                                  f'labels depend on the order in which assets were added ({bad})', case=case).to_json())
+                    break
+            stats['graphs'] = stats.get('graphs', 0) + 1
+        if len(viols) > 10:
+            break
+    return stats, viols
+
+
 def run(tier, seed):
     res = common.Result(PROP, tier, seed, 'model_checking')
     res.rule = ('every synthetic attack graph up to the node bound (all kind assignments as sorted multisets, '
                 'every subset of the n^2 directed edges incl. self-loops and cycles) analysed by the real code under '
                 'EVERY storage order of graph.nodes (the schedule of the worklist algorithm); a state = one '
-                '(graph, order) analysis; non-trivial = graphs whose greatest fixed point labels some node false')
+                '(graph, order) analysis; non-trivial = graphs whose greatest fixed point labels some node false. Part B: attack graphs generated from '
+                'three languages x every model up to the bound x {default, all-off, all-on defenses} x EVERY asset insertion order')
     res.assumptions = ['a TTC counts as a probability distribution iff it is a named function other than Enabled/Disabled; '
                        'arithmetic TTC expressions are outside the alphabet',
                        'kind multisets are enumerated sorted: all n! storage orders and all edge sets are explored, '
@@ -187,17 +268,27 @@ def run(tier, seed):
     for stats, viols in common.pmap(_job, jobs, chunksize=4):
         res.merge_counts(stats)
         res.add_violations(viols)
+    gjobs = []
+    for name in _partb_langs():
+        n = len(_partb_models(name, tier))
+        per = max(1, n // 32 + 1)
+        gjobs += [(name, tier, lo, lo + per) for lo in range(0, n, per)]
+        res.bounds[f'generated[{name}]'] = {'models': n, 'defense_variants': 3, 'asset_orders': 'all N!'}
+    for stats, viols in common.pmap(_job_generated, common.rotate(gjobs, seed)):
+        res.merge_counts(stats)
+        res.add_violations(viols)
     if tier == 'thorough':
         sc = [(list(k), 0, 512) for k in itertools.combinations_with_replacement(KINDS7, 3)]
         res.count('reference_selfcheck_graphs', sum(common.pmap(_job_selfcheck3, sc, chunksize=4)))
-    res.bounds = {'n<=3': 'all 16 kinds, all edge sets, all orders', 'n=4': '5 kinds, all loop-free edge sets, all 24 orders' + (' + 7 kinds, all 2^16 edge sets' if tier == 'thorough' else ''),
-                  'edge_sets': 'all 2^(n*n)', 'orders': 'all n!'}
+    res.bounds.update({'n<=3': 'all 16 kinds, all edge sets, all orders', 'n=4': '5 kinds, all loop-free edge sets, all 24 orders' + (' + 7 kinds, all 2^16 edge sets' if tier == 'thorough' else ''),
+                       'edge_sets': 'all 2^(n*n)', 'orders': 'all n!'})
     res.sample({'kinds': jobs[-1][0], 'edges': [[0, 1], [1, 1], [1, 2]], 'orders': 'all permutations'})
     c = res.counters
-    c['states'] = c.get('analyses', 0)
-    c['transitions'] = c.get('analyses', 0)
-    c['traces_validated_against_impl'] = c.get('analyses', 0)
-    c['evaluations'] = c.get('analyses', 0)
+    tot = c.get('analyses', 0) + c.get('generated_analyses', 0)
+    c['states'] = tot
+    c['transitions'] = tot
+    c['traces_validated_against_impl'] = tot
+    c['evaluations'] = tot
     c['distinct_nontrivial'] = c.get('nontrivial', 0)
     return res.finish()
 
